@@ -426,8 +426,8 @@ Definition open_file (s : fsys) (v : view) (view_ix : nat) (name : str) (flag pe
           else if has om OpenCreateExcl then (s, inl (RFail EFileExists))
           else
             let d1 := if has om OpenTruncate then [] else d in
-            (* every new handle starts at offset 0, O_APPEND or not (Write moves to the end) *)
-            (with_heap s (upd h c (NFile d1 k i m)), inr (new_handle c view_ix name 0 om))
+            let at_ := 0%Z in      (* every new handle starts at offset 0, O_APPEND or not (Write moves to the end) *)
+            (with_heap s (upd h c (NFile d1 k i m)), inr (new_handle c view_ix name at_ om))
       | Some (NDir _ m) =>
           if has om OpenCreateExcl then (s, inl (RFail EFileExists))
           else if has om OpenWrite || has om OpenCreate || has om OpenTruncate then (s, inl (RFail EIsADirectory))
